@@ -27,7 +27,7 @@ const prop = "C15"
 
 func TestMain(m *testing.M) {
 	vkit.Rec(prop).SetLevel("exploration",
-		"one real InterceptingListener configured with an option slice of drawn length 0-11 and SPARE CAPACITY 0-8 (as an application building it with append would), 2-8 goroutines calling Accept concurrently, and waves of 4-24 clients released together behind a barrier: honest authentications with per-client state and extra protocols, activation-token enrolments whose tokens carry distinct state, node-led fetches by authorized and unauthorized nodes, and rejected clients (forged nonce signature, foreign certificate). Built with -race. Oracle: the race detector reports nothing, and per connection the outcome equals what the model says for that client alone (accepted/rejected, reported state and protocol list are its own, the node record created by a token enrolment carries exactly that token's state, no other record changed). Non-trivial = spare capacity >=1, >=2 accepting goroutines and >=2 client kinds in a wave; distinct = (option slice shape, acceptors, wave composition).")
+		"one real InterceptingListener configured with an option slice of drawn length 0-11 and SPARE CAPACITY 0-8 (as an application building it with append would), 2-8 goroutines calling Accept concurrently, and waves of 4-24 clients released together behind a barrier: honest authentications with per-client state and extra protocols, activation-token enrolments whose tokens carry distinct state, node-led fetches by authorized and unauthorized nodes, and rejected clients (forged nonce signature, foreign certificate, genuine request followed by a header-less chunk). Built with -race. Oracle: the race detector reports nothing, and per connection the outcome equals what the model says for that client alone (accepted/rejected, reported state and protocol list are its own, the node record created by a token enrolment carries exactly that token's state, no other record changed). Non-trivial = spare capacity >=1, >=2 accepting goroutines and >=2 client kinds in a wave; distinct = (option slice shape, acceptors, wave composition).")
 	vkit.Rec(prop).Assume("the harness owns which clients start together, not the interleaving inside the listener; unsynchronised accesses are caught by the race detector independent of timing")
 	vkit.Main(m)
 }
@@ -82,10 +82,10 @@ func TestProp_ConcurrentHandshakes(t *testing.T) {
 			for i := 0; i < n; i++ {
 				idc++
 				c := &client{id: idc}
-				c.kind = rapid.SampledFrom([]string{"auth", "auth", "token", "token", "fetch-unauthorized", "fetch-authorized", "forged-nonce", "foreign-cert"}).Draw(t, "kind")
+				c.kind = rapid.SampledFrom([]string{"auth", "auth", "token", "token", "fetch-unauthorized", "fetch-authorized", "forged-nonce", "foreign-cert", "malformed-chunks"}).Draw(t, "kind")
 				kinds[c.kind]++
 				switch c.kind {
-				case "auth", "forged-nonce", "foreign-cert":
+				case "auth", "forged-nonce", "foreign-cert", "malformed-chunks":
 					c.a = vkit.NewActor(fmt.Sprint("a", c.id))
 					if err := w.Enroll(c.a); err != nil {
 						t.Fatalf("enroll: %v", err)
@@ -124,7 +124,7 @@ func TestProp_ConcurrentHandshakes(t *testing.T) {
 						c.conn, c.err = rig.Dial(c.a, extra, st)
 					case "token":
 						c.conn, c.err = rig.Dial(c.a, extra, st, nodeenrollment.WithActivationToken(c.token))
-					case "forged-nonce", "foreign-cert":
+					case "forged-nonce", "foreign-cert", "malformed-chunks":
 						nonce := make([]byte, 32)
 						_, _ = rand.Read(nonce)
 						sb, _ := proto.Marshal(marker(c.id))
@@ -138,6 +138,10 @@ func TestProp_ConcurrentHandshakes(t *testing.T) {
 							chain = [][]byte{vkit.MintLeaf(fr, vkit.LeafSpec{Pub: c.a.CertPub, SKI: c.a.CertPkix, CN: c.a.KeyID}), fr.Cert.Raw}
 						}
 						list := append(vkit.AuthProtos(req, nil), fmt.Sprintf("c-%d", c.id))
+						if c.kind == "malformed-chunks" {
+							// a genuine request followed by an entry of the same prefix without a chunk header
+							list = append(list, nodeenrollment.AuthenticateNodeNextProtoV1Prefix+"zz")
+						}
 						r := (&vkit.AdvClient{NextProtos: list, Chain: chain, Key: c.a.CertPriv}).Handshake(rig.Addr)
 						c.err = r.Err
 						if r.Conn != nil {
@@ -186,7 +190,7 @@ func TestProp_ConcurrentHandshakes(t *testing.T) {
 				}
 				seen[id]++
 				c := byID[id]
-				if c.kind == "forged-nonce" || c.kind == "foreign-cert" || c.kind == "fetch-unauthorized" {
+				if c.kind == "forged-nonce" || c.kind == "foreign-cert" || c.kind == "fetch-unauthorized" || c.kind == "malformed-chunks" {
 					fail("rejected-client-accepted/"+c.kind, "client %d (%s) was returned as authenticated", id, c.kind)
 				}
 				own, foreign := false, ""
